@@ -7,10 +7,10 @@
 //! nested metadata, every Conway certificate variant, relays, governance actions, values,
 //! rationals, redeemer keys, ...) are encoded and decoded; the result must be an equal value
 //! and re-encode to the same bytes.  key `roundtrip/<type>`.
-//! CASES: for the types whose derive attributes are transcribed in C06/Schemas.v (and three
-//! test structs derived here with the same minicbor-derive) the value, the bytes minicbor
-//! wrote and the round-trip verdict go to the schema model: CSchema sid value bytes rt
-//! (CMapSchema for #[cbor(map)] structs).
+//! CASES: for ~35 pallas types whose schema is GENERATED from the derive attributes
+//! (coq/theories/Generated/Schemas.v, looked up by `module::Type`) and four test types derived
+//! here with the same minicbor-derive, the value (opaque leaves as raw items), the bytes minicbor
+//! wrote and the round-trip verdict go to the schema model: CGen name value bytes rt.
 #[path = "cbor_tree/mod.rs"]
 mod cbor_tree;
 use pallas_codec::minicbor::{self, Decode, Encode};
@@ -44,12 +44,85 @@ fn v_var(i: i64, fs: Vec<String>) -> String { format!("(VVar {} [{}])", coq_z(i)
 fn v_list(fs: Vec<String>) -> String { format!("(VList [{}])", fs.join(";")) }
 fn v_bool(b: bool) -> String { format!("(VBool {})", coq_bool(b)) }
 
-fn v_cred(c: &StakeCredential) -> String { match c { StakeCredential::ScriptHash(h) => v_var(1, vec![v_bytes(h.as_ref())]), StakeCredential::AddrKeyhash(h) => v_var(0, vec![v_bytes(h.as_ref())]) } }
-fn v_drep(d: &conway::DRep) -> String { match d { conway::DRep::Key(h) => v_var(0, vec![v_bytes(h.as_ref())]), conway::DRep::Script(h) => v_var(1, vec![v_bytes(h.as_ref())]), conway::DRep::Abstain => v_var(2, vec![]), conway::DRep::NoConfidence => v_var(3, vec![]) } }
-fn v_opt_tail(o: &OptTail) -> String {
-    v_rec(vec![v_int(o.a), v_opt(o.b.map(v_int)), v_opt(o.c.as_ref().map(|b| v_bytes(b))), v_opt(o.d.map(v_bool)), v_opt(o.e.as_ref().map(|l| v_list(l.iter().map(|x| v_int(*x)).collect())))])
-}
-fn v_flat_opt(f: &FlatOpt) -> String { match f { FlatOpt::A(a, b) => v_var(0, vec![v_int(*a), v_opt(b.map(v_int))]), FlatOpt::B => v_var(3, vec![]), FlatOpt::C(a, b) => v_var(5, vec![v_opt(a.map(v_int)), v_opt(b.map(v_bool))]) } }
+fn v_text(b: &str) -> String { format!("(VText {})", coq_bytes(b.as_bytes())) }
+/// an opaque leaf: the raw bytes minicbor writes for it
+fn raw<T: Encode<()>>(x: &T) -> String { format!("(VRaw {})", coq_bytes(&minicbor::to_vec(x).expect("encode"))) }
+
+/// Rust value -> term of the Coq `value` type, following the GENERATED schema of its type
+trait ToV { fn tov(&self) -> String; }
+impl ToV for u8 { fn tov(&self) -> String { v_int(*self) } }
+impl ToV for u16 { fn tov(&self) -> String { v_int(*self) } }
+impl ToV for u32 { fn tov(&self) -> String { v_int(*self) } }
+impl ToV for u64 { fn tov(&self) -> String { v_int(*self) } }
+impl ToV for i64 { fn tov(&self) -> String { v_int(*self) } }
+impl ToV for bool { fn tov(&self) -> String { v_bool(*self) } }
+impl ToV for Bytes { fn tov(&self) -> String { v_bytes(self) } }
+impl ToV for String { fn tov(&self) -> String { v_text(self) } }
+impl<const N: usize> ToV for Hash<N> { fn tov(&self) -> String { v_bytes(self.as_ref()) } }
+impl<T: ToV> ToV for Vec<T> { fn tov(&self) -> String { v_list(self.iter().map(|x| x.tov()).collect()) } }
+impl<T: ToV> ToV for Option<T> { fn tov(&self) -> String { v_opt(self.as_ref().map(|x| x.tov())) } }
+impl<T: ToV> ToV for Box<T> { fn tov(&self) -> String { (**self).tov() } }
+impl ToV for (u64, u64) { fn tov(&self) -> String { v_rec(vec![self.0.tov(), self.1.tov()]) } }
+macro_rules! tov_struct { ($t:ty, $($f:tt),*) => { impl ToV for $t { fn tov(&self) -> String { v_rec(vec![$(self.$f.tov()),*]) } } } }
+macro_rules! tov_index { ($t:ty, $($v:ident = $i:expr),*) => { impl ToV for $t { fn tov(&self) -> String { match self { $(<$t>::$v => v_var($i, vec![])),* } } } } }
+tov_struct!(ExUnits, mem, steps);
+tov_struct!(pallas_primitives::TransactionInput, transaction_id, index);
+tov_struct!(alonzo::VKeyWitness, vkey, signature);
+tov_struct!(alonzo::BootstrapWitness, public_key, signature, chain_code, attributes);
+tov_struct!(pallas_primitives::PoolMetadata, url, hash);
+tov_struct!(pallas_primitives::Nonce, variant, hash);
+tov_struct!(pallas_primitives::VrfCert, 0, 1);
+tov_struct!(babbage::OperationalCert, operational_cert_hot_vkey, operational_cert_sequence_number, operational_cert_kes_period, operational_cert_sigma);
+tov_struct!(babbage::CostModels, plutus_v1, plutus_v2);
+tov_struct!(conway::Anchor, url, content_hash);
+tov_struct!(conway::GovActionId, transaction_id, action_index);
+tov_struct!(conway::RedeemersKey, tag, index);
+tov_struct!(conway::Constitution, anchor, guardrail_script);
+tov_struct!(conway::VotingProcedure, vote, anchor);
+tov_struct!(conway::ProposalProcedure, deposit, reward_account, gov_action, anchor);
+tov_struct!(alonzo::RedeemerPointer, tag, index);
+tov_index!(conway::RedeemerTag, Spend = 0, Mint = 1, Cert = 2, Reward = 3, Vote = 4, Propose = 5);
+tov_index!(alonzo::RedeemerTag, Spend = 0, Mint = 1, Cert = 2, Reward = 3);
+tov_index!(conway::Language, PlutusV1 = 0, PlutusV2 = 1, PlutusV3 = 2);
+tov_index!(conway::Vote, No = 0, Yes = 1, Abstain = 2);
+tov_index!(pallas_primitives::NetworkId, Testnet = 0, Mainnet = 1);
+tov_index!(pallas_primitives::NonceVariant, NeutralNonce = 0, Nonce = 1);
+impl ToV for StakeCredential { fn tov(&self) -> String { match self { StakeCredential::ScriptHash(h) => v_var(1, vec![h.tov()]), StakeCredential::AddrKeyhash(h) => v_var(0, vec![h.tov()]) } } }
+impl ToV for conway::DRep { fn tov(&self) -> String { match self { conway::DRep::Key(h) => v_var(0, vec![h.tov()]), conway::DRep::Script(h) => v_var(1, vec![h.tov()]), conway::DRep::Abstain => v_var(2, vec![]), conway::DRep::NoConfidence => v_var(3, vec![]) } } }
+impl ToV for conway::Voter { fn tov(&self) -> String { use conway::Voter as V; match self { V::ConstitutionalCommitteeKey(h) => v_var(0, vec![h.tov()]), V::ConstitutionalCommitteeScript(h) => v_var(1, vec![h.tov()]), V::DRepKey(h) => v_var(2, vec![h.tov()]), V::DRepScript(h) => v_var(3, vec![h.tov()]), V::StakePoolKey(h) => v_var(4, vec![h.tov()]) } } }
+// types with opaque leaves (PlutusData, RationalNumber, Relay, sets, maps): those fields go as raw items
+impl ToV for conway::Redeemer { fn tov(&self) -> String { v_rec(vec![self.tag.tov(), self.index.tov(), raw(&self.data), self.ex_units.tov()]) } }
+impl ToV for alonzo::Redeemer { fn tov(&self) -> String { v_rec(vec![self.tag.tov(), self.index.tov(), raw(&self.data), self.ex_units.tov()]) } }
+impl ToV for conway::ExUnitPrices { fn tov(&self) -> String { v_rec(vec![raw(&self.mem_price), raw(&self.step_price)]) } }
+impl ToV for conway::PoolVotingThresholds { fn tov(&self) -> String { v_rec(vec![raw(&self.motion_no_confidence), raw(&self.committee_normal), raw(&self.committee_no_confidence), raw(&self.hard_fork_initiation), raw(&self.security_voting_threshold)]) } }
+impl ToV for conway::DRepVotingThresholds { fn tov(&self) -> String { v_rec(vec![raw(&self.motion_no_confidence), raw(&self.committee_normal), raw(&self.committee_no_confidence), raw(&self.update_constitution), raw(&self.hard_fork_initiation),
+    raw(&self.pp_network_group), raw(&self.pp_economic_group), raw(&self.pp_technical_group), raw(&self.pp_governance_group), raw(&self.treasury_withdrawal)]) } }
+impl ToV for conway::Update { fn tov(&self) -> String { v_rec(vec![raw(&self.proposed_protocol_parameter_updates), self.epoch.tov()]) } }
+fn oraw<T: Encode<()>>(o: &Option<T>) -> String { v_opt(o.as_ref().map(|x| raw(x))) }
+impl ToV for conway::ProtocolParamUpdate { fn tov(&self) -> String { let p = self; v_rec(vec![
+    p.minfee_a.tov(), p.minfee_b.tov(), p.max_block_body_size.tov(), p.max_transaction_size.tov(), p.max_block_header_size.tov(), p.key_deposit.tov(), p.pool_deposit.tov(), p.maximum_epoch.tov(),
+    p.desired_number_of_stake_pools.tov(), oraw(&p.pool_pledge_influence), oraw(&p.expansion_rate), oraw(&p.treasury_growth_rate), p.min_pool_cost.tov(), p.ada_per_utxo_byte.tov(),
+    oraw(&p.cost_models_for_script_languages), p.execution_costs.tov(), p.max_tx_ex_units.tov(), p.max_block_ex_units.tov(), p.max_value_size.tov(), p.collateral_percentage.tov(), p.max_collateral_inputs.tov(),
+    p.pool_voting_thresholds.tov(), p.drep_voting_thresholds.tov(), p.min_committee_size.tov(), p.committee_term_limit.tov(), p.governance_action_validity_period.tov(), p.governance_action_deposit.tov(),
+    p.drep_deposit.tov(), p.drep_inactivity_period.tov(), oraw(&p.minfee_refscript_cost_per_byte)]) } }
+impl ToV for conway::Certificate { fn tov(&self) -> String { use conway::Certificate as C; match self {
+    C::StakeRegistration(c) => v_var(0, vec![c.tov()]), C::StakeDeregistration(c) => v_var(1, vec![c.tov()]), C::StakeDelegation(c, h) => v_var(2, vec![c.tov(), h.tov()]),
+    C::PoolRegistration { operator, vrf_keyhash, pledge, cost, margin, reward_account, pool_owners, relays, pool_metadata } =>
+        v_var(3, vec![operator.tov(), vrf_keyhash.tov(), pledge.tov(), cost.tov(), raw(margin), reward_account.tov(), raw(pool_owners), v_list(relays.iter().map(|r| raw(r)).collect()), pool_metadata.tov()]),
+    C::PoolRetirement(h, e) => v_var(4, vec![h.tov(), e.tov()]), C::Reg(c, n) => v_var(7, vec![c.tov(), n.tov()]), C::UnReg(c, n) => v_var(8, vec![c.tov(), n.tov()]),
+    C::VoteDeleg(c, d) => v_var(9, vec![c.tov(), d.tov()]), C::StakeVoteDeleg(c, h, d) => v_var(10, vec![c.tov(), h.tov(), d.tov()]), C::StakeRegDeleg(c, h, n) => v_var(11, vec![c.tov(), h.tov(), n.tov()]),
+    C::VoteRegDeleg(c, d, n) => v_var(12, vec![c.tov(), d.tov(), n.tov()]), C::StakeVoteRegDeleg(c, h, d, n) => v_var(13, vec![c.tov(), h.tov(), d.tov(), n.tov()]),
+    C::AuthCommitteeHot(a, b) => v_var(14, vec![a.tov(), b.tov()]), C::ResignCommitteeCold(c, a) => v_var(15, vec![c.tov(), a.tov()]), C::RegDRepCert(c, n, a) => v_var(16, vec![c.tov(), n.tov(), a.tov()]),
+    C::UnRegDRepCert(c, n) => v_var(17, vec![c.tov(), n.tov()]), C::UpdateDRepCert(c, a) => v_var(18, vec![c.tov(), a.tov()]) } } }
+impl ToV for conway::GovAction { fn tov(&self) -> String { use conway::GovAction as G; match self {
+    G::ParameterChange(i, p, h) => v_var(0, vec![i.tov(), p.tov(), h.tov()]), G::HardForkInitiation(i, v) => v_var(1, vec![i.tov(), v.tov()]),
+    G::TreasuryWithdrawals(m, h) => v_var(2, vec![raw(m), h.tov()]), G::NoConfidence(i) => v_var(3, vec![i.tov()]),
+    G::UpdateCommittee(i, s, m, q) => v_var(4, vec![i.tov(), raw(s), raw(m), raw(q)]), G::NewConstitution(i, c) => v_var(5, vec![i.tov(), c.tov()]), G::Information => v_var(6, vec![]) } } }
+// the harness' own test types
+impl ToV for OptTail { fn tov(&self) -> String { v_rec(vec![self.a.tov(), self.b.tov(), self.c.tov(), self.d.tov(), self.e.tov()]) } }
+impl ToV for FlatOpt { fn tov(&self) -> String { match self { FlatOpt::A(a, b) => v_var(0, vec![a.tov(), b.tov()]), FlatOpt::B => v_var(3, vec![]), FlatOpt::C(a, b) => v_var(5, vec![a.tov(), b.tov()]) } } }
+impl ToV for Nested { fn tov(&self) -> String { v_rec(vec![self.x.tov(), self.y.tov()]) } }
+impl ToV for MapOpt { fn tov(&self) -> String { v_rec(vec![self.a.tov(), self.b.tov(), self.c.tov(), self.d.tov(), self.e.tov()]) } }
 
 // ---- generators ----
 fn h28(rng: &mut Rng) -> Hash<28> { let b = rng.bytes(28); Hash::<28>::from(&b[..]) }
@@ -143,15 +216,12 @@ impl Ctx {
         (bytes, ok)
     }
     fn fail(&mut self, key: &str, what: String) { self.fails += 1; if self.fails <= 40 { emit_oracle_fail(key, &what[..what.len().min(6000)]); } }
-    fn case(&mut self, tag: &str, sid: u32, val: String, bytes: &[u8], rt: bool) {
+    /// round trip through the real codec (oracle) and, within the budget, a case for the schema named `name`
+    fn go<T>(&mut self, name: &str, v: &T) where T: ToV + Encode<()> + for<'b> Decode<'b, ()> + PartialEq + Debug {
+        let (b, ok) = self.roundtrip(name, v);
         if self.oracle_only || self.budget == 0 { return; }
         self.budget -= 1; self.n_cases += 1;
-        emit_case(tag, &format!("(CSchema {} {} {} {})", sid, val, coq_bytes(bytes), coq_bool(rt)));
-    }
-    fn mcase(&mut self, tag: &str, mid: u32, val: String, bytes: &[u8], rt: bool) {
-        if self.oracle_only || self.budget == 0 { return; }
-        self.budget -= 1; self.n_cases += 1;
-        emit_case(tag, &format!("(CMapSchema {} {} {} {})", mid, val, coq_bytes(bytes), coq_bool(rt)));
+        emit_case(name, &format!("(CGen \"{}\"%string {} {} {})", name, v.tov(), coq_bytes(&b), coq_bool(ok)));
     }
     fn iso(&mut self, kind: &str, era: &str, name: &str, orig: &[u8], re: Result<Vec<u8>, String>) {
         self.checked += 1;
@@ -260,52 +330,63 @@ fn main() {
 
     // ---------------- ORACLE 2 + CASES: value round trips
     let reps = if thorough { 40 } else { 4 };
-    // modelled schemas (ids = positions in C06/Schemas.v [schemas])
-    let per = (args.n / 16).max(4);
-    for _ in 0..per {
-        let v = ExUnits { mem: rng.edge_u64(), steps: rng.edge_u64() };
-        let (b, ok) = ctx.roundtrip("ExUnits", &v); ctx.case("ex-units", 0, v_rec(vec![v_int(v.mem), v_int(v.steps)]), &b, ok);
+    // values of the types whose schema is GENERATED from the source (name = module::Type), and of the test types
+    let per = (args.n / 40).max(3);
+    let opt = |rng: &mut Rng| rng.bool();
+    for round in 0..per {
+        let _ = round;
+        ctx.go("core::ExUnits", &ExUnits { mem: rng.edge_u64(), steps: rng.edge_u64() });
+        ctx.go("core::TransactionInput", &pallas_primitives::TransactionInput { transaction_id: h32(&mut rng), index: rng.edge_u64() });
         let (n1, n2) = (*rng.pick(&[0usize, 1, 23, 24, 32, 64, 255, 256, 300]), rng.below(70) as usize);
-        let v = alonzo::VKeyWitness { vkey: bytes_n(&mut rng, n1), signature: bytes_n(&mut rng, n2) };
-        let (b, ok) = ctx.roundtrip("VKeyWitness", &v); ctx.case("vkey-witness", 1, v_rec(vec![v_bytes(&v.vkey), v_bytes(&v.signature)]), &b, ok);
-        let v = alonzo::BootstrapWitness { public_key: bytes_n(&mut rng, 32), signature: bytes_n(&mut rng, 64), chain_code: bytes_n(&mut rng, 32), attributes: bytes_n(&mut rng, n2 % 5) };
-        let (b, ok) = ctx.roundtrip("BootstrapWitness", &v); ctx.case("bootstrap-witness", 2, v_rec(vec![v_bytes(&v.public_key), v_bytes(&v.signature), v_bytes(&v.chain_code), v_bytes(&v.attributes)]), &b, ok);
+        ctx.go("alonzo::VKeyWitness", &alonzo::VKeyWitness { vkey: bytes_n(&mut rng, n1), signature: bytes_n(&mut rng, n2) });
+        ctx.go("alonzo::BootstrapWitness", &alonzo::BootstrapWitness { public_key: bytes_n(&mut rng, 32), signature: bytes_n(&mut rng, 64), chain_code: bytes_n(&mut rng, 32), attributes: bytes_n(&mut rng, n2 % 5) });
+        ctx.go("core::PoolMetadata", &pallas_primitives::PoolMetadata { url: text(&mut rng), hash: bytes_n(&mut rng, 32) });
+        ctx.go("core::Nonce", &pallas_primitives::Nonce { variant: if rng.bool() { pallas_primitives::NonceVariant::Nonce } else { pallas_primitives::NonceVariant::NeutralNonce }, hash: if opt(&mut rng) { Some(h32(&mut rng)) } else { None } });
+        ctx.go("core::VrfCert", &pallas_primitives::VrfCert(bytes_n(&mut rng, 64), bytes_n(&mut rng, 80)));
+        ctx.go("core::NetworkId", &(if rng.bool() { pallas_primitives::NetworkId::Mainnet } else { pallas_primitives::NetworkId::Testnet }));
+        ctx.go("core::StakeCredential", &cred(&mut rng));
+        ctx.go("babbage::OperationalCert", &babbage::OperationalCert { operational_cert_hot_vkey: bytes_n(&mut rng, 32), operational_cert_sequence_number: rng.edge_u64(), operational_cert_kes_period: rng.edge_u64(), operational_cert_sigma: bytes_n(&mut rng, 64) });
+        let cm = |rng: &mut Rng| -> Option<Vec<i64>> { if rng.bool() { Some((0..rng.below(5)).map(|_| (rng.next() as i64) >> rng.below(64)).collect()) } else { None } };
+        ctx.go("babbage::CostModels", &babbage::CostModels { plutus_v1: cm(&mut rng), plutus_v2: cm(&mut rng) });
         let tags = [conway::RedeemerTag::Spend, conway::RedeemerTag::Mint, conway::RedeemerTag::Cert, conway::RedeemerTag::Reward, conway::RedeemerTag::Vote, conway::RedeemerTag::Propose];
         let ti = rng.below(6) as usize;
-        let (b, ok) = ctx.roundtrip("RedeemerTag", &tags[ti]); ctx.case("redeemer-tag", 3, v_var(ti as i64, vec![]), &b, ok);
-        let v = conway::RedeemersKey { tag: tags[ti], index: rng.edge_u64() as u32 };
-        let (b, ok) = ctx.roundtrip("RedeemersKey", &v); ctx.case("redeemers-key", 4, v_rec(vec![v_var(ti as i64, vec![]), v_int(v.index)]), &b, ok);
-        let langs = [conway::Language::PlutusV1, conway::Language::PlutusV2, conway::Language::PlutusV3]; let li = rng.below(3) as usize;
-        let (b, ok) = ctx.roundtrip("Language", &langs[li]); ctx.case("language", 5, v_var(li as i64, vec![]), &b, ok);
-        let v = cred(&mut rng); let (b, ok) = ctx.roundtrip("StakeCredential", &v); ctx.case("stake-credential", 6, v_cred(&v), &b, ok);
-        let v = drep(&mut rng); let (b, ok) = ctx.roundtrip("DRep", &v); ctx.case("drep", 7, v_drep(&v), &b, ok);
-        let k = *rng.pick(&[0u64, 1, 2, 7, 8, 9, 17]);
-        let v = certificate(&mut rng, k);
-        let val = match &v { conway::Certificate::StakeRegistration(c) => v_var(0, vec![v_cred(c)]), conway::Certificate::StakeDeregistration(c) => v_var(1, vec![v_cred(c)]),
-            conway::Certificate::StakeDelegation(c, h) => v_var(2, vec![v_cred(c), v_bytes(h.as_ref())]), conway::Certificate::Reg(c, n) => v_var(7, vec![v_cred(c), v_int(*n)]),
-            conway::Certificate::UnReg(c, n) => v_var(8, vec![v_cred(c), v_int(*n)]), conway::Certificate::VoteDeleg(c, d) => v_var(9, vec![v_cred(c), v_drep(d)]),
-            conway::Certificate::UnRegDRepCert(c, n) => v_var(17, vec![v_cred(c), v_int(*n)]), _ => unreachable!() };
-        let (b, ok) = ctx.roundtrip("Certificate", &v); ctx.case(&format!("certificate-{}", k), 8, val, &b, ok);
+        ctx.go("conway::RedeemerTag", &tags[ti]);
+        ctx.go("conway::RedeemersKey", &conway::RedeemersKey { tag: tags[ti], index: rng.edge_u64() as u32 });
+        let pd = alonzo::PlutusData::Array(pallas_codec::utils::MaybeIndefArray::Def((0..rng.below(3)).map(|_| alonzo::PlutusData::BoundedBytes(rng.bytes(3).into())).collect()));
+        ctx.go("conway::Redeemer", &conway::Redeemer { tag: tags[ti], index: rng.edge_u64() as u32, data: pd.clone(), ex_units: ExUnits { mem: rng.edge_u64(), steps: rng.edge_u64() } });
+        let atags = [alonzo::RedeemerTag::Spend, alonzo::RedeemerTag::Mint, alonzo::RedeemerTag::Cert, alonzo::RedeemerTag::Reward];
+        ctx.go("alonzo::Redeemer", &alonzo::Redeemer { tag: atags[ti % 4], index: rng.edge_u64() as u32, data: pd, ex_units: ExUnits { mem: rng.edge_u64(), steps: rng.edge_u64() } });
+        ctx.go("alonzo::RedeemerPointer", &alonzo::RedeemerPointer { tag: atags[ti % 4], index: rng.edge_u64() as u32 });
+        let langs = [conway::Language::PlutusV1, conway::Language::PlutusV2, conway::Language::PlutusV3];
+        ctx.go("conway::Language", &langs[rng.below(3) as usize]);
+        ctx.go("conway::DRep", &drep(&mut rng));
+        let voter = match rng.below(5) { 0 => conway::Voter::ConstitutionalCommitteeKey(h28(&mut rng)), 1 => conway::Voter::ConstitutionalCommitteeScript(h28(&mut rng)), 2 => conway::Voter::DRepKey(h28(&mut rng)), 3 => conway::Voter::DRepScript(h28(&mut rng)), _ => conway::Voter::StakePoolKey(h28(&mut rng)) };
+        ctx.go("conway::Voter", &voter);
+        ctx.go("conway::Anchor", &anchor(&mut rng));
+        ctx.go("conway::GovActionId", &conway::GovActionId { transaction_id: h32(&mut rng), action_index: rng.edge_u64() as u32 });
+        ctx.go("conway::Constitution", &conway::Constitution { anchor: anchor(&mut rng), guardrail_script: if opt(&mut rng) { Some(h28(&mut rng)) } else { None } });
+        let votes = [conway::Vote::No, conway::Vote::Yes, conway::Vote::Abstain];
+        ctx.go("conway::VotingProcedure", &conway::VotingProcedure { vote: votes[rng.below(3) as usize].clone(), anchor: if opt(&mut rng) { Some(anchor(&mut rng)) } else { None } });
+        ctx.go("conway::ExUnitPrices", &conway::ExUnitPrices { mem_price: rational(&mut rng), step_price: rational(&mut rng) });
+        ctx.go("conway::ProtocolParamUpdate", &ppu(&mut rng));
+        let mut upd = BTreeMap::new(); if rng.bool() { upd.insert(bytes_n(&mut rng, 28), ppu(&mut rng)); }
+        ctx.go("conway::Update", &conway::Update { proposed_protocol_parameter_updates: upd, epoch: rng.edge_u64() });
+        let k = *rng.pick(&[0u64, 1, 2, 3, 4, 7, 8, 9, 10, 11, 12, 13, 14, 15, 16, 17, 18]);
+        ctx.go("conway::Certificate", &certificate(&mut rng, k));
+        let k = rng.below(7);
+        let ga = gov_action(&mut rng, k);
+        ctx.go("conway::GovAction", &ga);
+        ctx.go("conway::ProposalProcedure", &conway::ProposalProcedure { deposit: rng.edge_u64(), reward_account: bytes_n(&mut rng, 29), gov_action: ga, anchor: anchor(&mut rng) });
         // derive test structs: optional fields in every combination
         let mk_ot = |rng: &mut Rng| OptTail { a: rng.edge_u64(), b: if rng.bool() { Some(rng.edge_u64() as u32) } else { None }, c: if rng.bool() { let n = rng.below(30) as usize; Some(Bytes::from(rng.bytes(n))) } else { None },
             d: if rng.bool() { Some(rng.bool()) } else { None }, e: if rng.bool() { Some((0..rng.below(4)).map(|_| rng.edge_u64() as u16).collect()) } else { None } };
-        let v = mk_ot(&mut rng); let (b, ok) = ctx.roundtrip("OptTail", &v); ctx.case("opt-tail", 9, v_opt_tail(&v), &b, ok);
+        ctx.go("test::OptTail", &mk_ot(&mut rng));
         let mk_fo = |rng: &mut Rng| match rng.below(3) { 0 => FlatOpt::A(rng.next() as u8, if rng.bool() { Some(rng.next() as i64 >> rng.below(64)) } else { None }), 1 => FlatOpt::B,
             _ => FlatOpt::C(if rng.bool() { Some(rng.edge_u64()) } else { None }, if rng.bool() { Some(rng.bool()) } else { None }) };
-        let v = mk_fo(&mut rng); let (b, ok) = ctx.roundtrip("FlatOpt", &v); ctx.case("flat-opt", 10, v_flat_opt(&v), &b, ok);
-        let v = Nested { x: (0..rng.below(3)).map(|_| mk_ot(&mut rng)).collect(), y: if rng.bool() { Some(mk_fo(&mut rng)) } else { None } };
-        let (b, ok) = ctx.roundtrip("Nested", &v); ctx.case("nested", 11, v_rec(vec![v_list(v.x.iter().map(v_opt_tail).collect()), v_opt(v.y.as_ref().map(v_flat_opt))]), &b, ok);
-    }
-    // #[cbor(map)] structs (ids = positions in C06/Schemas.v [mschemas])
-    for _ in 0..per {
-        let cm = |rng: &mut Rng| -> Option<Vec<i64>> { if rng.bool() { Some((0..rng.below(5)).map(|_| (rng.next() as i64) >> rng.below(64)).collect()) } else { None } };
-        let v = babbage::CostModels { plutus_v1: cm(&mut rng), plutus_v2: cm(&mut rng) };
-        let pv = |o: &Option<Vec<i64>>| v_opt(o.as_ref().map(|l| v_list(l.iter().map(|x| v_int(*x)).collect())));
-        let (b, ok) = ctx.roundtrip("babbage::CostModels", &v); ctx.mcase("map-cost-models", 0, v_rec(vec![pv(&v.plutus_v1), pv(&v.plutus_v2)]), &b, ok);
-        let v = MapOpt { a: rng.edge_u64(), b: if rng.bool() { Some(rng.edge_u64() as u32) } else { None }, c: if rng.bool() { let n = rng.below(30) as usize; Some(Bytes::from(rng.bytes(n))) } else { None },
-            d: (0..rng.below(4)).map(|_| rng.edge_u64() as u16).collect(), e: if rng.bool() { Some(rng.bool()) } else { None } };
-        let (b, ok) = ctx.roundtrip("MapOpt", &v);
-        ctx.mcase("map-opt", 1, v_rec(vec![v_int(v.a), v_opt(v.b.map(v_int)), v_opt(v.c.as_ref().map(|x| v_bytes(x))), v_list(v.d.iter().map(|x| v_int(*x)).collect()), v_opt(v.e.map(v_bool))]), &b, ok);
+        ctx.go("test::FlatOpt", &mk_fo(&mut rng));
+        ctx.go("test::Nested", &Nested { x: (0..rng.below(3)).map(|_| mk_ot(&mut rng)).collect(), y: if rng.bool() { Some(mk_fo(&mut rng)) } else { None } });
+        ctx.go("test::MapOpt", &MapOpt { a: rng.edge_u64(), b: if rng.bool() { Some(rng.edge_u64() as u32) } else { None }, c: if rng.bool() { let n = rng.below(30) as usize; Some(Bytes::from(rng.bytes(n))) } else { None },
+            d: (0..rng.below(4)).map(|_| rng.edge_u64() as u16).collect(), e: if rng.bool() { Some(rng.bool()) } else { None } });
     }
     // oracle only: the long tail of era values
     for k in 0..=18u64 { if k == 5 || k == 6 { continue; } for _ in 0..reps { let v = certificate(&mut rng, k); ctx.roundtrip(&format!("conway::Certificate/{}", k), &v); } }
@@ -327,6 +408,13 @@ fn main() {
         let v: Nullable<u64> = match rng.below(3) { 0 => Nullable::Null, 1 => Nullable::Undefined, _ => Nullable::Some(rng.edge_u64()) }; ctx.roundtrip("Nullable", &v);
         let v = alonzo::Value::Coin(rng.edge_u64()); ctx.roundtrip("alonzo::Value/coin", &v);
         let v = ppu(&mut rng); ctx.roundtrip("conway::ProtocolParamUpdate", &v);
+        // conway CostModels: derive(Encode) with #[cbor(skip)] unknown + hand-written Decode that fills `unknown`
+        let cmv = |rng: &mut Rng| -> Vec<i64> { (0..rng.below(4)).map(|_| (rng.next() as i64) >> rng.below(64)).collect() };
+        let v = conway::CostModels { plutus_v1: if rng.bool() { Some(cmv(&mut rng)) } else { None }, plutus_v2: None, plutus_v3: if rng.bool() { Some(cmv(&mut rng)) } else { None }, unknown: BTreeMap::new() };
+        ctx.roundtrip("conway::CostModels", &v);
+        let mut unk = BTreeMap::new(); unk.insert(3 + rng.below(5), cmv(&mut rng));
+        let v = conway::CostModels { plutus_v1: None, plutus_v2: Some(cmv(&mut rng)), plutus_v3: None, unknown: unk };
+        ctx.roundtrip("conway::CostModels/unknown-language", &v);
         let v = conway::Constitution { anchor: anchor(&mut rng), guardrail_script: if rng.bool() { Some(h28(&mut rng)) } else { None } }; ctx.roundtrip("Constitution", &v);
     }
     emit_stat("oracle_checks", ctx.checked);
